@@ -5,7 +5,7 @@
 //     its jointless child NT+2 and grandchild NT+3 (endpoints -2, -3, -4 of contacts / equalities; -1 = world).
 //     The phase functions of one mj_step are called exactly as mj_fwdPosition / mj_advance call them
 //     (mj_updateSleep only if the function reports a change).
-//   wb_new <NT> <never csv|-> <eqs x:y,..|-> <disableflags>        -> ok
+//   wb_new <NT> <never csv|-> <eqs x:y[:k],..|-> <disableflags>    -> ok   (k: 0 weld/bodies 1 connect/bodies 2 weld/SITES 3 connect/SITES)
 //   wb_set <v0,v1,..>                                               -> ok             (tree_asleep := .., mj_updateSleep)
 //   wb_wake <qpos|qvel|qfrc|xfrc|none> <trees csv|->                -> <ret> <tree_asleep csv> <tree_awake csv>
 //   wb_collide <x:y,x:y..|->      (-1 world, -2 mocap)              -> same
@@ -37,7 +37,7 @@ struct WB {
   int nt = 0;
   mjModel m; mjData d;
   std::vector<int> body_treeid, body_parentid, body_rootid, body_mocapid, dof_bodyid, tree_bodyadr, tree_bodynum,
-      tree_dofadr, tree_dofnum, tree_sleep_policy, geom_bodyid, eq_type, eq_objtype, eq_obj1id, eq_obj2id, dof_treeid;
+      tree_dofadr, tree_dofnum, tree_sleep_policy, geom_bodyid, eq_type, eq_objtype, eq_obj1id, eq_obj2id, dof_treeid, site_bodyid;
   std::vector<mjtNum> dof_length;
   std::vector<int> tree_asleep, tree_awake, body_awake, body_awake_ind, parent_awake_ind, dof_awake_ind,
       island_itreeadr, island_ntree, map_itree2tree, tree_island;
@@ -55,6 +55,7 @@ static std::vector<int> ints(const std::string& s) {
 }
 static int wb_body(int z, int nt) { return z >= 0 ? z + 1 : (z == -2 ? nt + 1 : z == -3 ? nt + 2 : z == -4 ? nt + 3 : 0); }
 
+static std::vector<int> g_eqkind;
 static void wb_make(int nt, const std::vector<int>& never, const std::vector<std::pair<int, int>>& eqs, int disable) {
   delete wb; wb = new WB; WB& w = *wb; w.nt = nt;
   memset(&w.m, 0, sizeof w.m); memset(&w.d, 0, sizeof w.d);
@@ -72,7 +73,15 @@ static void wb_make(int nt, const std::vector<int>& never, const std::vector<std
   for (int t : never) w.tree_sleep_policy.at(t) = mjSLEEP_NEVER;
   w.geom_bodyid.resize(nb); for (int g = 0; g < nb; g++) w.geom_bodyid[g] = g;
   w.eq_type.assign(neq + 1, mjEQ_WELD); w.eq_objtype.assign(neq + 1, mjOBJ_BODY); w.eq_obj1id.assign(neq + 1, 0); w.eq_obj2id.assign(neq + 1, 0);
-  for (int k = 0; k < neq; k++) { w.eq_obj1id[k] = wb_body(eqs[k].first, nt); w.eq_obj2id[k] = wb_body(eqs[k].second, nt); }
+  // one site per body, numbered in REVERSE body order so that a site id is never a valid stand-in for its body id
+  w.site_bodyid.resize(nb); for (int sid = 0; sid < nb; sid++) w.site_bodyid[sid] = nb - 1 - sid;
+  for (int k = 0; k < neq; k++) {
+    int kind = k < (int)g_eqkind.size() ? g_eqkind[k] : 0, b1 = wb_body(eqs[k].first, nt), b2 = wb_body(eqs[k].second, nt);
+    w.eq_type[k] = (kind & 1) ? mjEQ_CONNECT : mjEQ_WELD;
+    w.eq_objtype[k] = (kind & 2) ? mjOBJ_SITE : mjOBJ_BODY;
+    w.eq_obj1id[k] = (kind & 2) ? nb - 1 - b1 : b1; w.eq_obj2id[k] = (kind & 2) ? nb - 1 - b2 : b2;
+  }
+  w.m.nsite = nb;
   if (neq > 60) mk_die("too many equalities");
   memset(w.eq_active, 0, sizeof w.eq_active);
   mjModel& m = w.m;
@@ -83,7 +92,7 @@ static void wb_make(int nt, const std::vector<int>& never, const std::vector<std
   m.tree_bodyadr = w.tree_bodyadr.data(); m.tree_bodynum = w.tree_bodynum.data(); m.tree_dofadr = w.tree_dofadr.data();
   m.tree_dofnum = w.tree_dofnum.data(); m.tree_sleep_policy = w.tree_sleep_policy.data(); m.dof_length = w.dof_length.data();
   m.geom_bodyid = w.geom_bodyid.data(); m.eq_type = w.eq_type.data(); m.eq_objtype = w.eq_objtype.data();
-  m.eq_obj1id = w.eq_obj1id.data(); m.eq_obj2id = w.eq_obj2id.data();
+  m.eq_obj1id = w.eq_obj1id.data(); m.eq_obj2id = w.eq_obj2id.data(); m.site_bodyid = w.site_bodyid.data();
   w.tree_asleep.assign(nt + 2 * WB_GUARD, -777);
   w.tree_awake.assign(nt, 1); w.body_awake.assign(nb, 1); w.body_awake_ind.assign(nb, 0); w.parent_awake_ind.assign(nb, 0);
   w.dof_awake_ind.assign(nt, 0); w.island_itreeadr.assign(nt + 1, 0); w.island_ntree.assign(nt + 1, 0);
@@ -118,7 +127,12 @@ static bool wb_ops(const std::vector<std::string>& t, const std::vector<std::str
   const std::string& op = t[0];
   if (op == "wb_new") {
     std::vector<std::pair<int, int>> eqs;
-    if (t.at(3) != "-") for (auto& e : drv_csv(t[3])) { size_t c = e.find(':'); eqs.push_back({atoi(e.substr(0, c).c_str()), atoi(e.substr(c + 1).c_str())}); }
+    g_eqkind.clear();
+    if (t.at(3) != "-") for (auto& e : drv_csv(t[3])) {
+      size_t c = e.find(':'), c2 = e.find(':', c + 1);
+      eqs.push_back({atoi(e.substr(0, c).c_str()), atoi(e.substr(c + 1, c2 == std::string::npos ? std::string::npos : c2 - c - 1).c_str())});
+      g_eqkind.push_back(c2 == std::string::npos ? 0 : atoi(e.substr(c2 + 1).c_str()));
+    }
     wb_make(atoi(t.at(1).c_str()), ints(t.at(2)), eqs, t.size() > 4 ? atoi(t[4].c_str()) : 0);
     printf("ok\n"); return true;
   }
@@ -322,7 +336,8 @@ static bool real_ops(const std::vector<std::string>& t, const std::vector<std::s
       } else if (m->eq_type[e] == mjEQ_JOINT) {
         x = id1 >= 0 ? tree_or_static(m, m->jnt_bodyid[id1]) : -1; y = id2 >= 0 ? tree_or_static(m, m->jnt_bodyid[id2]) : -1;
       }
-      printf("%s[%d,%d,%d]", e ? "," : "", x, y, d->eq_active[e] ? 1 : 0);
+      int kind = (m->eq_type[e] == mjEQ_CONNECT ? 1 : 0) + (m->eq_objtype[e] == mjOBJ_SITE ? 2 : 0);
+      printf("%s[%d,%d,%d,%d]", e ? "," : "", x, y, d->eq_active[e] ? 1 : 0, kind);
     }
     printf("],\"nisland\":%d,\"nefc\":%d,\"ncon\":%d,\"ntree_awake\":%d,\"twin\":%d,\"twin_field\":\"%s\",\"warn\":%d}\n",
            d->nisland, d->nefc, d->ncon, d->ntree_awake, twin ? (twin_eq ? 1 : 0) : -1, twin_field,
